@@ -366,6 +366,16 @@ impl EGraph {
         self.db.add_external_function(func)
     }
 
+    /// Replace the external function registered under `id` (see
+    /// [`EGraph::register_external_func`]); rules calling `id` use `func` from then on.
+    pub fn replace_external_func(
+        &mut self,
+        id: ExternalFunctionId,
+        func: Box<dyn ExternalFunction + 'static>,
+    ) {
+        self.db.replace_external_function(id, func)
+    }
+
     pub fn free_external_func(&mut self, func: ExternalFunctionId) {
         self.db.free_external_function(func)
     }
